@@ -636,7 +636,10 @@ class Formatter:
 
     def with_(self, json, prec):
         with_ = listwrap(json["with"])
-        parts = ", ".join(f"{part['name']} AS (\n{self.dispatch(part['value'])}\n)" for part in with_)
+        parts = ", ".join(
+            f"{self.dispatch(part['name']) if isinstance(part['name'], str) else part['name']} AS (\n{self.dispatch(part['value'])}\n)"
+            for part in with_
+        )
         return f"WITH {parts}"
 
     def union_all(self, json, prec):
@@ -674,6 +677,8 @@ class Formatter:
     def all_columns(self, json, prec):
         others = json.get("except")
         frum = json["all_columns"]
+        if isinstance(frum, str):
+            frum = self.dispatch(frum)
         if frum:
             if others:
                 return f"{frum}.* EXCEPT ({self.dispatch(others)})"
@@ -747,7 +752,8 @@ class Formatter:
         return f"FETCH FIRST {num} ROWS ONLY"
 
     def delete(self, json, prec):
-        acc = ["DELETE FROM ", json["delete"]]
+        table = json["delete"]
+        acc = ["DELETE FROM ", self.dispatch(table) if isinstance(table, str) else table]
         if "where" in json:
             json = {k: v for k, v in json.items() if k != "delete"}
             acc.append("\n")
@@ -760,7 +766,8 @@ class Formatter:
             acc.append("OVERWRITE")
         else:
             acc.append("INTO")
-        acc.append(json["insert"])
+        table = json["insert"]
+        acc.append(self.dispatch(table) if isinstance(table, str) else table)
 
         if "columns" in json:
             acc.append(self.sql_list(listwrap(json["columns"])))
